@@ -230,15 +230,16 @@ func checkTSEnum(w *World, r *Result) {
 		Undecided("typescript.codeForEnum: no loop over Members")
 	}
 	v := info.Defs[identOf(loop.Value)]
-	guards := leadingGuards(info, loop.Body, map[types.Object]string{v: "$m"})
 	apps := accumStmts(info, fi.Decl, loop)
 	uncond := len(apps) >= 1
+	var guards []string
 	for _, a := range apps {
-		if len(pathCondsNoLoop(fi, a.stmt)) != 0 {
+		if cs := reachConds(info, fi.Decl, loop, a.stmt, map[types.Object]string{v: "$m"}); len(cs) != 0 {
 			uncond = false
+			guards = append(guards, cs...)
 		}
 	}
-	r.cond(len(guards) == 0 && uncond, "AGR-C03e", fi.Name, "enum object lists every member", w.Pos(loop.Pos()), "one entry per member (exported or not), unconditionally: the literal set is the enum's value set", "members are filtered ("+strings.Join(guards, ", ")+"): a value Go can emit is not in the TypeScript literal set")
+	r.cond(uncond, "AGR-C03e", fi.Name, "enum object lists every member", w.Pos(loop.Pos()), "one entry per member (exported or not), unconditionally: the literal set is the enum's value set", "members are filtered ("+strings.Join(guards, ", ")+"): a value Go can emit is not in the TypeScript literal set")
 	// value printed is the constant's value, key its name
 	okPair := false
 	ast.Inspect(loop.Body, func(x ast.Node) bool {
